@@ -97,6 +97,15 @@ CLAIMS["C15"] = dict(
     note="sciris.asd is third-party: only clip/accept rule modelled and checked on logged traces; pso/hyperopt only statically; aliasing below protocol level observed by snapshots.",
     design="8.C15")
 
+CLAIMS["C05"] = dict(
+    technique="Lean 4 induction over time on a keyring model (Atomica.Timed) refined to the engine model's timed compartments + row-count table and impulse-response correspondence with TimedCompartment (modes A, B)",
+    text="Proof: rows_spec (n = k when D is k steps up to rounding, 1 when D < dt); keyring_closed_form / flush_exact / no_early_release / occupancy_bound for every n >= 1 and every inflow history by induction on time; "
+         "the abstract keyring is proved to be what Engine.updateComps does to a timed compartment (keyring_refines_engine, timed_step, tlink_keeps_row, untimed_restarts, group_step), and the closed forms are lifted to every "
+         "reachable state of Engine.step (engine_flush_exact, engine_release_exact, engine_occupancy_bound_general, engine_group_release_exact). The allocated row count of real models is compared with the model over an exhaustive "
+         "(k, dt) table with D formed in floating point; mode B on duration-group models; impulse-response oracle on the implementation.",
+    note="closed forms for groups containing a junction or with ordinary outflows leaving the group are covered by the one-step theorems + correspondence, not by a closed form.",
+    design="8.C05")
+
 NA_DEFAULT = "not yet claimed: model, theorems and correspondence under construction (see DESIGN.md section 8)"
 NA = {}
 
